@@ -4,7 +4,7 @@ import warnings
 
 import numpy as np
 
-from harness.common import f2hex, hex2f, run_driver, lean_obligations
+from harness.common import generated_steps, f2hex, hex2f, run_driver, lean_obligations
 from harness.points import canon
 from harness.translate import translator_obligations
 
@@ -122,7 +122,7 @@ def run(ctx):
         xi = np.asarray(x) if cls == 'Derivative' else np.atleast_1d(x)
         if cls == 'Gradient':
             xi = np.atleast_1d(x).ravel()
-        steps = [np.atleast_1d(np.asarray(s, dtype=float)) * np.ones(x.shape) for s in obj._get_steps(xi)[0]]
+        steps = [np.atleast_1d(np.asarray(s, dtype=float)) * np.ones(x.shape) for s in generated_steps(obj, xi)[0]]
         name = obj.fd_rule.diff.__name__
         evalfirst = (m in ('complex', 'multicomplex')) or bool(obj.fd_rule.eval_first_condition) or cls in ('Gradient', 'Jacobian')
         metas.append((len(lines), len(steps), rec, name, evalfirst, max(float(np.max(np.abs(s_))) for s_ in steps)))
